@@ -321,6 +321,17 @@ def fold_once(fn, module_functions, inst, class_methods=None):
     f = Folder(env={}, fuel=40000, methods=class_methods or {})
     f.module_functions = dict(module_functions)
 
+    from .fold import _NODE_HOME
+    home = _NODE_HOME.get(id(fn))
+    tables = set()
+    if home is not None:
+        f.home = [home]
+        hm = home[0].modules.get(home[1])
+        if hm is not None:
+            # module-level tables (`_CHARGES = {'first': ..}`): folded like the module's functions, not symbolic library names
+            tables = {n.targets[0].id for n in hm.tree.body if isinstance(n, ast.Assign) and len(n.targets) == 1 and isinstance(n.targets[0], ast.Name)
+                      and isinstance(n.value, (ast.Dict, ast.Tuple, ast.List, ast.Set, ast.DictComp, ast.ListComp))}
+
     class G(dict):
         def __contains__(self, k):
             return dict.__contains__(self, k) or (k not in FUNCS and k not in BUILTIN_LIKE)
@@ -328,6 +339,11 @@ def fold_once(fn, module_functions, inst, class_methods=None):
         def __getitem__(self, k):
             if dict.__contains__(self, k):
                 return dict.__getitem__(self, k)
+            if k in tables:
+                try:
+                    return f._module_name(k)
+                except KeyError:
+                    pass
             return Term(k)
 
         def get(self, k, d=None):
